@@ -1,7 +1,7 @@
 (* [walkx] (Model/CheckerRun.v) is [walk] (Model/Interp.v) up to the unbound-lookup counter:
    from states that differ only in the counter (the one of [walkx] not above the one of [walk])
    both return the same outcome and value and end in states that again differ only in the
-   counter.  Hence [render_x] is [render] with a smaller-or-equal counter
+   counter.  Hence [render_xc] is [render] with a smaller-or-equal counter
    ([render_x_is_render]): the walker never reads the counter.
 
    Proof: the relational walker principle of Proofs/InterpRel.v with the guard that holds
@@ -175,14 +175,14 @@ Proof.
       apply (wr_enter _ _ _ _ simU_logic). apply IH.
 Qed.
 
-(* [render_x] is [render] but for the counter, which is not larger *)
+(* [render_xc] is [render] but for the counter, which is not larger *)
 Theorem render_x_is_render fuel name data_id data cl bl first_id :
-  let rx := render_x cf fuel name data_id data cl bl first_id in
+  let rx := render_xc cf fuel name data_id data cl bl first_id in
   let r := render cf fuel name data_id data cl bl first_id in
   rr_outcome rx = rr_outcome r /\ rr_writes rx = rr_writes r /\ rr_file rx = rr_file r /\ rr_line rx = rr_line r
   /\ rr_shared_writes rx = rr_shared_writes r /\ (rr_unbound rx <= rr_unbound r)%nat.
 Proof.
-  unfold render_x, render. destruct (find_template (r_templates (c_reg cf)) name) as [t|]; [|cbn; repeat split; lia].
+  unfold render_xc, render. destruct (find_template (r_templates (c_reg cf)) name) as [t|]; [|cbn; repeat split; lia].
   set (st0 := init_state _ _ _ _ _ _).
   destruct (walkx_sim fuel (map fst (t_params t)) (t_node t) st0 st0 (eqU_refl st0)) as [Hr Hs].
   destruct (walkx cf (map fst (t_params t)) fuel (t_node t) st0) as [r1 s1].
@@ -198,7 +198,7 @@ End Sim.
 Theorem accepted_no_unbound_lookup_full cf fuel name data_id data cl bl first_id :
   check_registry (c_reg cf) = Accept ->
   registry_shaped (c_reg cf) = true ->
-  let rx := render_x cf fuel name data_id data cl bl first_id in
+  let rx := render_xc cf fuel name data_id data cl bl first_id in
   let r := render cf fuel name data_id data cl bl first_id in
   rr_unbound rx = 0%nat
   /\ rr_outcome rx = rr_outcome r /\ rr_writes rx = rr_writes r /\ rr_file rx = rr_file r /\ rr_line rx = rr_line r
@@ -214,7 +214,7 @@ Theorem accepted_bundle_no_unbound_name fs cf fuel name data_id data cl bl first
   compile_check fs = Accept ->
   (forall ts, add_files [] fs = AddOk ts -> c_reg cf = registry_of ts fs) ->
   registry_shaped (c_reg cf) = true ->
-  rr_unbound (render_x cf fuel name data_id data cl bl first_id) = 0%nat.
+  rr_unbound (render_xc cf fuel name data_id data cl bl first_id) = 0%nat.
 Proof.
   intros Hc Hreg. destruct (compile_check_registry fs Hc) as (ts & Hadd & Hchk). rewrite <- (Hreg ts Hadd) in Hchk.
   apply accepted_no_unbound_name. exact Hchk.
